@@ -327,10 +327,7 @@ def h_lin(a):
     sig = dict(call='is_linear')
     if impl == 'T' and not orc and len(bfs_dist(adj, 0)) < n:
         sig['symptom'] = 'disconnected_accepted'
-    # the Coq model follows the unfixed code (degree profile only, finding C20-F6); once the fix is applied the
-    # implementation agrees with the oracle and the model's 'T' on a disconnected graph is the documented difference
-    return dict(model=f'lin {fmt(adj)}', impl=impl, oracle=fmt(orc), what='is_linear', sig=sig,
-                alt_ok=(lambda mc: mc == 'T') if (not orc and len(bfs_dist(adj, 0)) < n) else None)
+    return dict(model=f'lin {fmt(adj)}', impl=impl, oracle=fmt(orc), what='is_linear', sig=sig)
 
 
 def cmat(D):
@@ -408,18 +405,16 @@ def h_gsub(a):
     r = rd if rd is not None else {x: i for i, x in enumerate(loc)}
     valid_loc = len(set(loc)) == k and all(0 <= x < n for x in loc) and k > 0
     sig = dict(call='get_subgraph')
-    alt = None
     if not valid_loc or set(r) != set(loc) or (ren != 'NONE' and len(ren) != len(r)):
         orc = 'ERR'
     elif sorted(r.values()) != list(range(k)):
         orc = 'ERR'      # "the renumbering must be a permutation of [0, len(location))"
-        alt = (lambda mc: True)     # the model follows the unfixed code (finding C20-F5): it may accept
         if got != 'ERR':
             sig['symptom'] = 'non_injective_renumbering_accepted'
     else:
         orc = canon_edges({(r[x], r[y]) for x, y in es if x in r and y in r})
     line = f'gsub {fmt(adj)} {fmt(loc)}' if ren == 'NONE' else f'gsubr {fmt(adj)} {fmt(loc)} {fmt(ren)}'
-    return dict(model=line, impl=got, oracle=orc, sig=sig, what='get_subgraph', alt_ok=alt,
+    return dict(model=line, impl=got, oracle=orc, sig=sig, what='get_subgraph',
                 canon=lambda v: v if v == 'ERR' else canon_edges(parse(v)[0]))
 
 
@@ -688,18 +683,41 @@ def h_qpu(a):
     return dict(model=None, impl=safe(f), oracle=exp, what='get_qpu_to_qudit_map & co.: components after deleting remote edges')
 
 
+def h_hasheq(a):
+    """equal graphs (same size, same edge set, any edge order / orientation, pickled copy) are == and hash equally;
+    graphs differing in an edge or in size are != """
+    import pickle
+    n, es, perm, flips = a
+    es = [tuple(e) for e in es]
+    es2 = [es[i] for i in perm]
+    es2 = [(y, x) if f else (x, y) for (x, y), f in zip(es2, flips)]
+
+    def f():
+        g1, g2 = Impl.G(es, n), Impl.G(es2, n)
+        g3 = pickle.loads(pickle.dumps(g1))
+        g4 = Impl.G(g1)
+        bigger = Impl.G(es, n + 1)
+        fewer = Impl.G(es[1:], n) if es else None
+        return fmt([g1 == g2, hash(g1) == hash(g2), g1 == g3, hash(g1) == hash(g3), g1 == g4, hash(g1) == hash(g4),
+                    len({g1, g2, g3, g4}) == 1, g1 != bigger, (g1 != fewer) if es else True,
+                    sorted(g3._edges) == sorted(g1._edges) and g3.num_qudits == n])
+    return dict(model=None, impl=safe(f), oracle=fmt([True] * 10), sig=dict(call='CouplingGraph.__hash__/__eq__'),
+                what='CouplingGraph equality/hash: equal graphs (reordered / flipped edge lists, pickled and copied) are equal '
+                     'and hash equally; different graphs are unequal')
+
+
 HANDLERS = {
     'fc': h_fc, 'fcw': h_fcw, 'deg': h_deg, 'lin': h_lin, 'fw': h_fw, 'fww': h_fww, 'spt': h_spt, 'sub': h_sub,
     'gsub': h_gsub, 'fql': h_fql, 'perm': h_perm, 'emb': h_emb, 'topo': h_topo, 'mkg': h_mkg, 'ind': h_ind,
     'relab': h_relab, 'match': h_match, 'kron': h_kron, 'otimes': h_otimes, 'ipow': h_ipow,
     'applyr': h_apply('r'), 'applyl': h_apply('l'),
-    'py:mm_locations': h_mm_locations, 'py:mm_compat': h_mm_compat, 'py:span': h_span, 'py:qpu': h_qpu,
+    'py:mm_locations': h_mm_locations, 'py:mm_compat': h_mm_compat, 'py:span': h_span, 'py:qpu': h_qpu, 'py:hasheq': h_hasheq,
 }
 # functions whose model has a Coq theorem (props/C20.v) vs correspondence/oracle only
 THEOREM_BACKED = ['fc', 'fcw', 'deg', 'lin', 'fw', 'fww', 'spt', 'sub', 'gsub', 'perm', 'fql', 'emb', 'topo', 'mkg',
                   'ind', 'match', 'kron', 'otimes', 'ipow', 'applyr', 'applyl']
 CORRESPONDENCE_ONLY = ['relab']
-ORACLE_ONLY = ['py:mm_locations', 'py:mm_compat', 'py:span', 'py:qpu', 'get_neighbors_of']
+ORACLE_ONLY = ['py:mm_locations', 'py:mm_compat', 'py:span', 'py:qpu', 'py:hasheq', 'get_neighbors_of']
 
 
 def evaluate(ctx: vf.Ctx, queries: list[str]) -> int:
@@ -736,7 +754,7 @@ def evaluate(ctx: vf.Ctx, queries: list[str]) -> int:
                     mc = r['canon'](m)
                 except Exception:  # noqa
                     mc = m
-            if mc != r['impl'] and merr(r['impl']) != mc and not (r.get('alt_ok') and r['alt_ok'](mc)):
+            if mc != r['impl'] and merr(r['impl']) != mc:
                 sig = dict(r['sig'], kind='model-mismatch')
                 failed |= bool(ctx.violation(sig, dict(case, model_query=r['model']), mc, r['impl'],
                                              f"{r['what']}: Coq model and implementation disagree", kind='correspondence',
@@ -824,6 +842,10 @@ def generate(ctx: vf.Ctx) -> list[str]:
             root = rng.randrange(n)
             if adj[root]:        # an isolated root (disconnected graph) is out of contract: nothing to connect
                 Q.append(f'py:span {G} {root}')
+        if n <= 4 or rng.random() < 0.3:
+            perm = list(range(len(es)))
+            rng.shuffle(perm)
+            Q.append(f'py:hasheq {n} {fmt(es)} {fmt(perm)} {fmt([int(rng.random() < 0.5) for _ in es])}')
         if es and (n <= 4 or rng.random() < 0.2):
             remote = [e for e in es if rng.random() < 0.3]
             Q.append(f'py:qpu {n} {fmt(es)} {fmt(remote)}')
@@ -936,7 +958,8 @@ def run(ctx: vf.Ctx):
         'is_fully_connected, is_fully_connected_without(every q, some out of range), degrees, neighbours, is_linear, '
         'Floyd-Warshall (unit weights and random integer weights with remote edges / overrides), shortest-path tree from every '
         'source, connected subgraphs of every size (incl. 0 and n+1), get_subgraph for sampled locations and non-monotone '
-        'renumberings (15%% malformed), induced subgraph, maximal matching (order replayed), rooted span, QPU maps, MachineModel '
+        'renumberings (15%% malformed), induced subgraph, maximal matching (order replayed), rooted span, QPU maps, hash/eq of '
+        'reordered, flipped, pickled and copied graphs, MachineModel '
         'locations / compatibility; is_embedded_in on all pairs of graphs <=4 vertices; constructor on random edge lists; '
         'topology constructors for n < %d and grids < %dx%d; from_qudit_location for all partial permutations of <=%d qudits, '
         'radix 2-4; otimes / ipower / apply_right / apply_left on random exact signed permutation matrices (mixed radix 2,3). '
@@ -971,7 +994,7 @@ def run(ctx: vf.Ctx):
     ctx.cov['functions_with_theorems'] = THEOREM_BACKED
     ctx.cov['functions_correspondence_only'] = CORRESPONDENCE_ONLY
     ctx.cov['functions_oracle_only'] = ORACLE_ONLY
-    ctx.cov['uncovered'] = ['CouplingGraph.__eq__/__hash__', 'maximal_matching(randomize=True) (theorem covers every order; not run)',
+    ctx.cov['uncovered'] = ['maximal_matching(randomize=True) (theorem covers every order; not run)',
                             'UnitaryBuilder.calc_env_matrix', 'complex-valued unitaries in otimes/ipower']
     if not ctx.quick():
         # independent re-check of the whole .vo closure of props/C20.v with the stand-alone checker
